@@ -639,10 +639,10 @@ def run(ctx):
         info = prepare(c, r) if c else None
         r.json = []; r.out = ""                 # the behaviours now live in the chunk files
         return name, (r, info)
-    jobs = [(c["name"], "EnvSave.cfg", c["sub"], dict(workers=4, coverage=bool(c["required"]), **(dict(simulate=dict(num=c["simulate"]["num"]), depth=c["simulate"]["depth"], seed=ctx.seed) if c["simulate"] else {})), c) for c in C]
+    jobs = [(c["name"], "EnvSave.cfg", c["sub"], dict(workers=4 if c["simulate"] else 2, coverage=bool(c["required"]), **(dict(simulate=dict(num=c["simulate"]["num"]), depth=c["simulate"]["depth"], seed=ctx.seed) if c["simulate"] else {})), c) for c in C]
     for g, _, _ in GUARDS:
         jobs.append(("guard-" + g, "EnvSave.cfg", {'Variant = "ok"': 'Variant = "%s"' % g, "Record = TRUE": "Record = FALSE"}, dict(workers=1), None))
-    jobs.append(("live", "EnvSave_live.cfg", {} if not ctx.quick else {"MaxCalls = 3": "MaxCalls = 2"}, dict(workers=4), None))
+    jobs.append(("live", "EnvSave_live.cfg", {} if not ctx.quick else {"MaxCalls = 3": "MaxCalls = 2"}, dict(workers=2), None))
     with ThreadPoolExecutor(max_workers=3) as ex:
         results = dict(ex.map(tlc_job, jobs))
     ctx.extra["tlc_wall_s"] = {k: round(v[0].wall, 1) for k, v in results.items()}
